@@ -9,10 +9,11 @@ na_file = os.path.join(ROOT, "tools", "not_applicable.json")
 if os.path.exists(na_file):
     NA_REASONS = json.load(open(na_file))
 checks, na = [], []
+REGISTERED = set(open(os.path.join(ROOT, "tools", "registered.txt")).read().split())
 for p in props:
     pid = p["id"]
     path = os.path.join(ROOT, "vf", "checks", pid.lower() + ".py")
-    if not os.path.exists(path) or pid in NA_REASONS:
+    if not os.path.exists(path) or pid in NA_REASONS or pid not in REGISTERED:
         na.append({"property_id": pid, "reason": NA_REASONS.get(pid, "check not built yet in this round; planned in DESIGN.md section 3")})
         continue
     mod = importlib.import_module("vf.checks." + pid.lower())
